@@ -86,12 +86,20 @@ J11Hist(S, M, rec, ni) ==
 J11(rec) == LET S == [rules |-> rec.rules]  CH == AllChains(S)  M == rec.model
             IN Tally([ni \in 1..Len(rec.names) |-> J11Name(S, CH, M, rec, ni) \cup J11Hist(S, M, rec, ni)])
 
-(* ---- C12 ---- *)
-J12Pair(S, CH, M, rec, j) ==
+(* ---- C12 ----
+   The packet side of a pair does not depend on the key: the ways the packet name satisfies the definitions of the
+   source (PktMatches) and the nodes it reaches in the tree (TreeMatch) are computed once per packet name of the
+   record (rows), the key side once per pair.  CheckRow / TreeCheckRow are Lvs!CheckWith / LvsTree!TreeCheck with the
+   packet side handed in. *)
+CheckRow(S, CH, pm, key, dev) == \E m \in pm : KeyOk(S, CH, m[1], m[2], StripDigest(key), dev)
+TreeCheckRow(M, tm, key, dev) == \E r \in tm : \E k \in TreeMatch(M, key, r[2], dev) :
+                                    k[1] \in SeqToSet(NodeAt(M, r[1]).sign)
+J12Pair(S, CH, M, rec, j, rows) ==
   LET p == rec.names[rec.pairs[j][1]]
       k == rec.names[rec.pairs[j][2]]
       r == rec.pairs[j][3]
-      src == CheckWith(S, CH, p, k, NoDev)
+      row == rows[rec.pairs[j][1]]
+      src == CheckRow(S, CH, row[1], k, NoDev)
       dir == IF r THEN "yes-for-no" ELSE "no-for-yes"
   IN IF src # r
      THEN LET expl == IF CheckWith(S, CH, p, k, DevP) = r THEN "DEV_PreboundSkipsConstraints"
@@ -100,10 +108,14 @@ J12Pair(S, CH, M, rec, j) ==
                       ELSE "unexplained"
               nokey == IF r /\ ~MatchesSomeRule(S, CH, k) THEN "/key-matches-no-rule" ELSE ""
           IN {"verdict/" \o expl \o "/" \o dir \o nokey}
-     ELSE IF TreeCheck(M, p, k, NoDev) # r THEN {"tree-vs-checker/" \o dir}
+     ELSE IF TreeCheckRow(M, row[2], k, NoDev) # r THEN {"tree-vs-checker/" \o dir}
      ELSE {}
 J12(rec) == LET S == [rules |-> rec.rules]  CH == AllChains(S)  M == rec.model
-            IN Tally([j \in 1..Len(rec.pairs) |-> J12Pair(S, CH, M, rec, j)])
+                \* (f @@ g of the TLC module builds the function explicitly: every row is evaluated exactly once)
+                rows == [a \in {rec.pairs[j][1] : j \in 1..Len(rec.pairs)} |->
+                           <<PktMatches(S, CH, StripDigest(rec.names[a]), NoDev), TreeMatch(M, rec.names[a], EmptyTCtx, NoDev)>>]
+                        @@ EmptyCtx
+            IN Tally([j \in 1..Len(rec.pairs) |-> J12Pair(S, CH, M, rec, j, rows)])
 
 (* ---- C13 (i): source errors ---- *)
 J13w(rec) ==
